@@ -239,7 +239,9 @@ func simReactor(cs *compState) {
 	if doFreeze && frozenReturned {
 		k.Probe("c12-freeze-runs")
 	}
-	if reason == "deadlock" || reason == "max-steps" {
+	if reason == "max-steps" && !k.Spun() {
+		k.Probe("comp-step-budget-exhausted")
+	} else if reason == "deadlock" || reason == "max-steps" {
 		bl := cs.Blocked()
 		if !frozenReturned {
 			k.Violate("C12", "progress", "reactor-deadlock", fmt.Sprintf("nothing can run any more (%s) but calls have not returned: %v; accepted=%d finished=%d table=%v", reason, bl, len(accepted), len(finished), tableIDs()))
